@@ -3,7 +3,7 @@ def _agree(rec):
          ok <hex> / okj / err / panic   exact (hand-modelled decoders; schema decoder on canonical writer-form input)
          accept                         the implementation must accept (schema-valid value in another byte form)
          oke <hex>                      `ok <hex>` or `err` (the model stops before an external validity check)
-         any                            no prediction (the model is stricter than the code here, or the entry point is observed only)
+         any                            no prediction (between the strict and the lenient model, or the entry point is observed only)
        A case whose verdict already fails is reported through the verdict, not as a disagreement."""
     m, i = rec["model"], rec["impl"]
     if str(rec.get("idx", "")).startswith("#"):
@@ -74,6 +74,9 @@ CFG = {
             "integer extremes, raw key/hash lengths, EMIP-3 container lengths); malformed hex / bech32 (valid checksum with bad padding) / "
             "base58 / JSON text; sweep: every input of length <= 1 for every entry point, length 2 sampled (quick) or complete (thorough) - "
             "error results of the sweep are counted per decoder (`sweep` lines), everything else is an individual case; "
+            "predictions: hand models exact; schema decoder (strict) exact on canonical writer-form input and `accept` on other valid "
+            "input; lenient acceptor Total/Lax.v (every byte form the readers tolerate) and the generic well-formedness parser give "
+            "`err` for what they refuse - about 83% of the individual cases carry an exact prediction; "
             "non-trivial = distinct case on which the model commits to a non-error outcome or the implementation accepted",
     "trusted_base": [
         "Total/Decoders.v: hand models of the Rust decoders listed in its header (model, not spec), incl. the cbor_event primitives they call",
